@@ -244,6 +244,7 @@ class Program:
         normalise.desugar_walrus(trees)
         normalise.desugar_conditional_expressions(trees)
         normalise.desugar_quantifiers(trees)
+        normalise.desugar_boolean_returns(trees)
         self.inlined_constants = normalise.inline_new_constants(trees)
         self.expanded_helpers = normalise.expand_new_helpers(trees)
         self.comprehension_rewrites = normalise.comprehension_form(trees)
